@@ -53,6 +53,8 @@ func l3op(f []string) vlib.Res {
 			_ = os.WriteFile(filepath.Join(cfg.Directory, resolver.VerifC09TombstoneFile), []byte("\x07not a gob stream"), 0o600)
 		case "start-zero":
 			_ = os.WriteFile(filepath.Join(cfg.Directory, resolver.VerifC09TombstoneFile), nil, 0o600)
+		case "start-unreadable":
+			plantLoop(filepath.Join(cfg.Directory, resolver.VerifC09TombstoneFile))
 		}
 	}})
 	defer p.Close()
@@ -95,7 +97,7 @@ func l3op(f []string) vlib.Res {
 		_ = os.WriteFile(tomb, nil, 0o600)
 	case "unreadable":
 		plantLoop(tomb)
-	case "start-corrupt", "start-zero":
+	case "start-corrupt", "start-zero", "start-unreadable":
 	default:
 		return vlib.Res{Impl: "bad-op"}
 	}
